@@ -50,6 +50,37 @@ func corpus(e *ev.Env, w *witnesses) {
 	// two concurrent duplicates, all schedules; first execution failing
 	all("two-duplicates", scenario{Reqs: pairs[0]}, faultPlan{})
 	all("two-duplicates-first-fails", scenario{Reqs: pairs[0], FailFirst: true}, faultPlan{})
+	// harness self-check: sharding a schedule tree by a prefix of choices neither loses nor
+	// duplicates schedules (same set of interleavings as the unsharded DFS)
+	e.Corpus("selfcheck-prefix-sharding", func(c *ev.Case) {
+		sc := scenario{Reqs: pairs[0], FailFirst: true}
+		var t tally
+		full := map[string]int{}
+		sched.DFS(0, func(ch sched.Chooser) *sched.Outcome {
+			out := w.one(c, &sc, faultPlan{}, judgeOpts{doubleCtx: "concurrent-duplicates", linz: true}, ch, &t)
+			full[out.Key()]++
+			return out
+		})
+		parts := map[string]int{}
+		for p := 0; p < 8; p++ {
+			dfsPrefix([]int{p / 4, (p / 2) % 2, p % 2}, 0, func(ch sched.Chooser) *sched.Outcome {
+				out := w.one(c, &sc, faultPlan{}, judgeOpts{doubleCtx: "concurrent-duplicates", linz: true}, ch, &t)
+				parts[out.Key()]++
+				return out
+			})
+		}
+		ok := len(full) == len(parts)
+		for k, n := range full {
+			if n != 1 || parts[k] != 1 {
+				ok = false
+			}
+		}
+		t.flush(e, "corpus")
+		e.Stat("selfcheck.prefix_sharding_schedules", int64(len(full)))
+		if !ok {
+			e.Inconclusive("harness self-check failed: prefix-sharded DFS does not enumerate exactly the schedules of the full DFS")
+		}
+	})
 	// lifetime: replay inside, re-execution allowed outside, both backends
 	for _, mem := range []bool{false, true} {
 		name := "lifetime-vstore"
